@@ -35,10 +35,11 @@ REQUIRED = {"brace_sequences": 50000, "expr_calls": 3000, "sweep_calls": 2000, "
 LEVEL_TEXT = ("Exploration with a bounded-exhaustive part: the function sweep enumerates every registered name x "
               "argument count 0..3 x shape pairs on the real Expander; a boundary monitor, a proportionality monitor "
               "(CPU + output size) and a recursion high-water monitor judge each call; random template universes "
-              "(cycles, unbalanced braces) run under the step clock.")
+              "(cycles, unbalanced braces) run under the step clock; every #expr operator x operand pair and every "
+              "brace-token sequence up to length 5 (6 thorough), as page text and as template body, is expanded too.")
 LEVEL_NOTE = ("CPU guard is coarse (catches blow-ups, not slowness); shapes outside the sweep are only reached by the "
               "random programs.")
-TECHNIQUE = "runtime boundary + resource monitors (exception/type, CPU, output size, recursion high-water) over a bounded-exhaustive function sweep and fuzzed template universes"
+TECHNIQUE = "runtime boundary + resource monitors (exception/type, CPU, output size, recursion high-water) over bounded-exhaustive function, #expr-operator and brace-sequence sweeps and fuzzed template universes"
 
 SHAPES = ["", "word", "0", "7", "-3", "2.5", "1e3", "1e400", "999999999999", "9e999999999", "a/b/c", "../x",
           "Template:Title", "{{lc:AbC}}", "Y-m-d H:i", "x=1", " 12 ", "2024-02-30", "<b>q</b>", "99999",
